@@ -117,6 +117,68 @@ THEOREM DomForall ==    \* V{x} in %A%: @{x}: phi  =  V{x}: @{x}: %A% => phi
          = {s \in S : \A v \in S : s \in JumpSet(S, [w \in S |-> (S \ A) \cup Phi[w]], v)}
 BY DEF JumpSet
 
+(* ---- the next-step and hybrid laws added to Laws.tla (dist_*, EX_true, AX_false, bind_jump, exists_var, ---- *)
+(* ---- forall_imp, dom_bind_leaf, dom_exists_var, dom_exists_and, dom_forall_imp), for arbitrary sets     ---- *)
+THEOREM EXDistributesOverUnion ==
+  ASSUME NEW S, NEW K \in [S -> SUBSET S], NEW X \in SUBSET S, NEW Y \in SUBSET S
+  PROVE  EXs(K, S, X \cup Y) = EXs(K, S, X) \cup EXs(K, S, Y)
+BY DEF EXs
+
+THEOREM AXDistributesOverIntersection ==
+  ASSUME NEW S, NEW K \in [S -> SUBSET S], NEW X \in SUBSET S, NEW Y \in SUBSET S
+  PROVE  AXs(K, S, X \cap Y) = AXs(K, S, X) \cap AXs(K, S, Y)
+BY DEF AXs
+
+THEOREM EXTrueOnTotal ==
+  ASSUME NEW S, NEW K \in [S -> SUBSET S], \A s \in S : K[s] # {}
+  PROVE  EXs(K, S, S) = S
+BY DEF EXs
+
+(* E[A U {}] = {} and A[A U {}] = {}: {} is a fixed point of both unfoldings on a total structure *)
+THEOREM UntilEmptyFixedPoint ==
+  ASSUME NEW S, NEW K \in [S -> SUBSET S], NEW A \in SUBSET S, \A s \in S : K[s] # {}
+  PROVE  /\ {} \cup (A \cap EXs(K, S, {})) = {}
+         /\ {} \cup (A \cap AXs(K, S, {})) = {}
+BY DEF EXs, AXs
+
+(* E[{} U T] = T and A[{} U T] = T: T is a fixed point of both unfoldings when the first argument is empty *)
+THEOREM UntilFromEmpty ==
+  ASSUME NEW S, NEW K \in [S -> SUBSET S], NEW T \in SUBSET S
+  PROVE  /\ T \cup ({} \cap EXs(K, S, T)) = T
+         /\ T \cup ({} \cap AXs(K, S, T)) = T
+OBVIOUS
+
+THEOREM BindJump ==     \* !{x}: @{x}: %A%  =  %A%
+  ASSUME NEW S, NEW A \in SUBSET S
+  PROVE  {s \in S : s \in JumpSet(S, [w \in S |-> A], s)} = A
+BY DEF JumpSet
+
+THEOREM ExistsVar ==    \* 3{x}: ({x} & %A%)  =  %A%      ({x} holds exactly in the state v)
+  ASSUME NEW S, NEW A \in SUBSET S
+  PROVE  UNION {{v} \cap A : v \in S} = A
+OBVIOUS
+
+THEOREM ForallImp ==    \* V{x}: ({x} => %A%)  =  %A%
+  ASSUME NEW S, NEW A \in SUBSET S
+  PROVE  {s \in S : \A v \in S : s \in (S \ {v}) \cup A} = A
+OBVIOUS
+
+THEOREM DomBindLeaf ==  \* !{x} in %A%: %T%  =  %A% & %T%
+  ASSUME NEW S, NEW A \in SUBSET S, NEW T \in SUBSET S
+  PROVE  {s \in A : s \in [w \in S |-> T][s]} = A \cap T
+OBVIOUS
+
+THEOREM DomExistsVar == \* 3{x} in %A%: {x} = %A%   and   3{x} in %A%: ({x} & %T%) = %A% & %T%
+  ASSUME NEW S, NEW A \in SUBSET S, NEW T \in SUBSET S
+  PROVE  /\ UNION {{v} : v \in A} = A
+         /\ UNION {{v} \cap T : v \in A} = A \cap T
+OBVIOUS
+
+THEOREM DomForallImp == \* V{x} in %A%: ({x} => %T%)  =  ~%A% | %T%
+  ASSUME NEW S, NEW A \in SUBSET S, NEW T \in SUBSET S
+  PROVE  {s \in S : \A v \in A : s \in (S \ {v}) \cup T} = (S \ A) \cup T
+OBVIOUS
+
 (* over an empty domain exists is false and forall is true *)
 THEOREM EmptyDomain ==
   ASSUME NEW S, NEW Phi \in [S -> SUBSET S]
